@@ -256,6 +256,131 @@ def as_completed_plans(chk, rnd):
       chk.violation('as_completed:workers-left-acquired', f'[{name}] {acquired}', ctx)
 
 
+def as_completed_model(chk, rnd):
+  """spec/dist/AsCompleted.tla: the round structure of orchestrate.as_completed with its bookkeeping of preferred /
+  reserved / released workers.  TLC checks exactly-once delivery, release of every worker, termination and that the
+  loop never dies, for pool sizes below, equal to and above the number of tasks; the pinned reservation rule
+  (Clamp = FALSE) must be rejected.  Every behaviour is then projected to its task-level schedule (submissions,
+  exhaustion of the iterator, completions with outcome) and the REAL as_completed is driven along it: attempt k of
+  task t answers when the harness opens its gate."""
+  import time as real_time
+  from ml_metrics._src.chainables import lazy_fns
+  sizes = [(3, 2, 1), (2, 3, 1), (4, 3, 0)] if chk.tier == 'quick' else [(3, 2, 2), (2, 3, 2), (4, 3, 1), (3, 3, 1), (4, 2, 2)]
+  invs = ['NoCrash', 'AtMostOnce', 'ExactlyOnceAtEnd', 'RunningAreHeld', 'AllReleased']
+  hs = []
+  for nw, nt, nto in sizes:
+    consts = dict(Workers={f'w{i + 1}' for i in range(nw)}, NTasks=nt, MaxTimeouts=nto, Clamp=True)
+    mc = tlc.run('dist', 'AsCompleted', tlc.cfg_text(spec='Fair', constants=consts, invariants=invs, properties=['Terminates'], view='View',
+                                                     deadlock=False), coverage=True, timeout=1800)
+    chk.add_tlc(mc, f'AsCompleted/{nw} workers {nt} tasks')
+    if not mc.ok:
+      chk.machinery_failure(f'AsCompleted.tla ({nw} workers, {nt} tasks) violates {mc.error_kind} {mc.error_name}')
+    missing = tlc.require_covered(mc, ['Submit', 'EndSubmit', 'Finish', 'Check', 'Release', 'Final'])
+    if missing:
+      chk.machinery_failure(f'vacuous AsCompleted model: {missing}')
+    gen = tlc.run('dist', 'AsCompleted', tlc.cfg_text(constants=consts, invariants=['Emit'], deadlock=False), workers=1, timeout=1800)
+    if not gen.ok:
+      chk.machinery_failure(f'AsCompleted export failed: {gen.error_kind} {gen.error_name}')
+    hs += gen.histories
+  neg = tlc.run('dist', 'AsCompleted', tlc.cfg_text(constants=dict(Workers={'w1', 'w2', 'w3'}, NTasks=2, MaxTimeouts=0, Clamp=False),
+                                                    invariants=['NoCrash'], view='View', deadlock=False), timeout=600)
+  chk.coverage['pinned_reservation_rule_rejected_by_tlc'] = (neg.error_name == 'NoCrash')
+  if neg.ok:
+    chk.machinery_failure('AsCompleted.tla accepts the pinned reservation rule: NoCrash is vacuous')
+  # distinct task-level schedules
+  seen, scheds = set(), []
+  for h in hs:
+    key = (h['workers'], h['tasks'], tuple((e['ev'], e['t'], e['again']) for e in h['events']))
+    if key not in seen:
+      seen.add(key)
+      scheds.append(h)
+  rnd.shuffle(scheds)
+  budget = 60 if chk.tier == 'quick' else 1500
+  chk.count('as_completed_schedules_enumerated', len(scheds))
+  big = [h for h in scheds if h['workers'] > h['tasks']]        # pools larger than the task list: two thirds of the budget
+  small = [h for h in scheds if h['workers'] <= h['tasks']]
+  scheds = big[:budget * 2 // 3] + small[:budget - min(len(big), budget * 2 // 3)]
+  chk.count('as_completed_schedules_replayed', len(scheds))
+  drift = 0
+  for h in scheds:
+    nw, nt = h['workers'], h['tasks']
+    lib.gates_reset()
+    exhausted = threading.Event()
+    got = []
+
+    def tasks():
+      for t in range(1, nt + 1):
+        yield lazy_fns.trace(lib.scheduled_task)(t)
+      exhausted.set()
+
+    # no death is part of these schedules: a staleness threshold far beyond the (scaled) duration of a replay keeps
+    # a loaded machine from turning a slow step into 'All workers timeout'
+    with dist.cluster(nw, call_timeout=20.0, heartbeat_threshold=1e7) as c:
+      def run():
+        c.pool.wait_until_alive(deadline_secs=600, minimum_num_workers=nw)
+        for x in c.mods.orchestrate.as_completed(c.pool, tasks()):
+          got.append(x)
+        return True
+
+      box = {}
+      th = threading.Thread(target=lambda: box.setdefault('v', dist.run_with_deadline(run, 20)), daemon=True)
+      th.start()
+      attempt = {}
+      followed = True
+      for e in h['events']:
+        t = e['t']
+        if not followed:
+          break
+        if e['ev'] == 'submit':
+          attempt[t] = attempt.get(t, 0) + 1
+          followed = lib.started(t, attempt[t]).wait(1.5)
+        elif e['ev'] == 'exhausted':
+          followed = exhausted.wait(1.5)
+        else:
+          k = attempt.get(t, 1)
+          lib.OUTCOMES[(t, k)] = 'timeout' if e['again'] else 'ok'
+          lib.gate(t, k).set()
+          if not e['again']:
+            t0 = real_time.time()
+            while 100 + t not in got and real_time.time() - t0 < 1.5 and 'v' not in box:
+              real_time.sleep(0.001)
+            followed = (100 + t) in got
+      if not followed:
+        drift += 1
+      # let whatever is still gated answer, then collect the end of the run
+      for _ in range(400):
+        if 'v' in box:
+          break
+        with lib._GLOCK:
+          evs = list(lib.GATES.values()) + [lib.GATES.setdefault((t, k), threading.Event()) for t in range(1, nt + 1) for k in (1, 2, 3, 4)]
+        for ev in evs:
+          ev.set()
+        real_time.sleep(0.01)
+      th.join(25)
+      status, val = box.get('v', ('hung', None))
+      acquired = [w.address for w in c.pool.acquired_workers]
+    chk.replayed()
+    sched_txt = ' '.join(('S' if e['ev'] == 'submit' else 'X' if e['ev'] == 'exhausted' else ('T' if e['again'] else 'F')) + (str(e['t']) if e['t'] else '')
+                         for e in h['events'])
+    ctx = dict(kind='dist', scenario=f'as_completed model schedule {nw} workers {nt} tasks: {sched_txt}', history=h)
+    shape = 'more-workers-than-tasks' if nw > nt else 'tasks>=workers'
+    if status == 'hung':
+      chk.violation(f'as_completed:model:hung:{shape}', f'[{nw} workers, {nt} tasks, {sched_txt}] no end; results so far {sorted(got)}', ctx)
+    elif status == 'raised':
+      chk.violation(f'as_completed:model:died:{type(val).__name__}:{shape}',
+                    f'[{nw} workers, {nt} tasks, schedule {sched_txt}] as_completed raised {val!r}; the specification ends with every result delivered once', ctx)
+    elif sorted(got) != [100 + t for t in range(1, nt + 1)]:
+      chk.violation(f'as_completed:model:results:{shape}', f'[{nw} workers, {nt} tasks, {sched_txt}] results {sorted(got)}', ctx)
+    elif acquired:
+      chk.violation(f'as_completed:model:workers-left-acquired:{shape}', f'[{nw} workers, {nt} tasks, {sched_txt}] {acquired}', ctx)
+  lib.gates_reset()
+  chk.coverage['as_completed_schedules_not_followed'] = drift
+  # the loop runs free: whether a check phase falls between two completions is a matter of timing, so some orders of the
+  # specification are not taken step by step (those runs are still judged by their results); most must be
+  if drift * 2 > len(scheds):
+    print(f'MODEL-DRIFT property=C06 as_completed: {drift} of {len(scheds)} task-level schedules of AsCompleted.tla could not be followed step by step')
+
+
 def record_iterate(n, shards, workers, plan, *, retry_threshold=50, call_timeout=20.0, threshold=90.0, deadline=25.0):
   """Runs WorkerPool.iterate under a fault plan and records the events of Trace_Sched.tla."""
   import re
@@ -543,6 +668,7 @@ def body(chk):
   chk.replayed()
   judge(chk, 'app-error element 3 raises', n, out, {}, expect_error=('RuntimeError', 'ValueError', 'ExceptionGroup'))
   as_completed_plans(chk, rnd)
+  as_completed_model(chk, rnd)
   answer_races_death(chk)
   graceful_rejoin(chk)
   graceful_rejoin(chk, same_object=True)
